@@ -9,12 +9,12 @@ use serde_json::{json, Value};
 use std::collections::HashSet;
 
 pub fn core_segs(f: Family, level: u8) -> Vec<Vec<u8>> {
-	let mut v: Vec<&str> = vec!["", ".", "..", "a", "a:b"];
+	let mut v: Vec<&str> = vec!["", ".", "..", "a", "a:b", "1:b"];
 	if f == Family::Iri {
 		v.push("é");
 	}
 	if level >= 1 {
-		v.extend(["b", "%2E"]);
+		v.extend(["b", "%2E", ":"]);
 	}
 	v.into_iter().map(domains::b).collect()
 }
